@@ -251,6 +251,12 @@ func (batch *Batch) readMessage(
 		// record is after it, whatever comes next in the response.
 		batch.offset = last + 1
 	}
+	if base, ok := batch.msgs.batchBaseOffset(); ok && base > batch.offset {
+		// The response went on with a batch that starts after the expected
+		// offset: the offsets in between were removed by log compaction, and
+		// must be stepped over even if this batch turns out to be truncated.
+		batch.offset = base
+	}
 	switch {
 	case err == nil:
 		batch.offset = offset + 1
